@@ -114,6 +114,41 @@ def structure_obligations():
                                 rows.append(dict(kind="batch_handle_access", cls=cname, accessor=bm, access=what, got=f"{ins.op} {vals}"))
             except Exception as e:
                 rows.append(dict(kind="batch_accessor_raises", cls=cname, detail=f"{type(e).__name__}: {e}"))
+        # (2b) slot access through the plural form: operand order of lbs / lbns / sbs (prefab hash, [name
+        # hash,] slot index, slot type, batch mode | value) and of ls / ss on the single device
+        def _norm(v):
+            v = getattr(v, "value", v)
+            if hasattr(v, "name") and hasattr(v, "value"):
+                return v.name
+            return v
+
+        if plural is not None:
+            slot_props = [(pn, d) for pn, d in tables.all_props(cname).items() if d[0] == "slot"][:2]
+            occ = ("Occupied", ty.LogicSlotType.Occupied.value)
+            mx = ("Maximum", ty.LogicBatchMethod.Maximum.value)
+            for pn, d in slot_props:
+                try:
+                    reg = ty.IC10Register("r0")
+                    for src_, nm_ in ((inst, None), (inst["probe name"], "probe name")):
+                        ins = getattr(getattr(src_, pn), "Occupied").Maximum(reg)
+                        n += 1
+                        vals = [_norm(i_) for i_ in ins.inputs]
+                        tail = vals[1:] if nm_ is None else vals[2:]
+                        if ins.op != ("lbs" if nm_ is None else "lbns") or len(tail) != 3 or tail[0] != d[1] or tail[1] not in occ or tail[2] not in mx:
+                            rows.append(dict(kind="batch_slot_access", cls=cname, prop=pn, named=nm_ is not None, got=f"{ins.op} {[str(v) for v in vals]}"))
+                    st_ = getattr(getattr(inst, pn), "Occupied")._set(1.0)
+                    vals = [_norm(i_) for i_ in st_.inputs]
+                    n += 1
+                    if st_.op != "sbs" or len(vals) != 4 or vals[1] != d[1] or vals[2] not in occ:
+                        rows.append(dict(kind="batch_slot_access", cls=cname, prop=pn, named=False, got=f"{st_.op} {[str(v) for v in vals]}"))
+                    one = getattr(getattr(cls("d0"), pn), "Occupied")
+                    for ins in (one._load(reg), one._set(1.0)):
+                        vals = [_norm(i_) for i_ in ins.inputs]
+                        n += 1
+                        if ins.op not in ("ls", "ss") or vals[1] != d[1] or vals[2] not in occ:
+                            rows.append(dict(kind="device_slot_access", cls=cname, prop=pn, got=f"{ins.op} {[str(v) for v in vals]}"))
+                except Exception as e:
+                    rows.append(dict(kind="slot_access_raises", cls=cname, prop=pn, detail=f"{type(e).__name__}: {e}"))
         # (3) named slots resolve to their numbered slot; logic properties carry their own name
         try:
             obj = cls("d0")
